@@ -16,12 +16,10 @@ from fractions import Fraction
 import numpy as np
 from harness import util, core
 
-THEOREMS = ['C18_dim_nondim_inverse']
-THEOREMS_FULL = ['C18_dim_nondim_inverse', 'C18_dim_nondim_same', 'C18_nondim_unit_independent',
+THEOREMS = ['C18_dim_nondim_inverse', 'C18_dim_nondim_same', 'C18_nondim_unit_independent',
             'C18_nondim_mul', 'C18_nondim_div', 'C18_nondim_pow', 'C18_nondim_defined_iff_scales_present',
-            'C18_units_R',
-            'C18_timedelta_roundtrip', 'C18_old_code_refuted', 'C18_timedelta_roundtrip_default_2p17_bounded',
-            'C18_snap_ms_R', 'C18_datetime_roundtrip_minutes',
+            'C18_rate_times_period', 'C18_units_R',
+            'C18_time_roundtrips', 'C18_old_code_refuted', 'C18_snap_ms_R',
             'C18_phase_reduced', 'C18_phase_unique', 'C18_phase_advance', 'C18_phase_period',
             'C18_hyps_satisfiable']
 LEVEL = 'proof'
@@ -141,7 +139,7 @@ def _cases(ctx):
     yield 'td_dense', {'scale': rand_T, 'a': 0, 'n': 20000 if quick else 200000}
     yield 'td_trace', {'scale': rand_T, 's': [int(x) for x in rng.integers(-2 ** 40, 2 ** 40, size=500 if quick else 5000)]}
     # implementation-only sweep (the property's clause) over a long dense range
-    yield 'td_oracle', {'scale': 'default', 'a': 0, 'n': 2000000 if quick else 20000000}
+    yield 'td_oracle', {'scale': 'default', 'a': 0, 'n': 5000000 if quick else 40000000}
     yield 'td_oracle', {'scale': 'atmospheric', 'a': -500000, 'n': 1000000}
     # ---- Part B: calendar times at minute resolution
     refs = ['1979-01-01T00:00', '1900-01-01T00:00', '2000-02-29T12:34', '2099-12-31T23:59', '1970-01-01T00:00']
@@ -151,7 +149,7 @@ def _cases(ctx):
             yield 'dt_trace', {'scale': nm, 'ref': ref, 'M': M, 'unit': ['m', 's', 'm', 's', 'm'][ri]}
     yield 'dt_dense', {'scale': 'default', 'ref': '1979-01-01T00:00', 'a': -20000, 'n': 40000 if quick else 400000}
     for ref in refs:
-        yield 'dt_oracle', {'scale': 'default', 'ref': ref, 'seed': int(rng.integers(0, 2 ** 31)), 'n': 20000 if quick else 400000}
+        yield 'dt_oracle', {'scale': 'default', 'ref': ref, 'seed': int(rng.integers(0, 2 ** 31)), 'n': 200000 if quick else 2000000}
     yield 'dt_oracle', {'scale': 'hour', 'ref': refs[2], 'seed': int(rng.integers(0, 2 ** 31)), 'n': 20000}
     yield 'time_axis', {'scale': 'default', 'steps': [1, 27, 60, 3600, 21600, 86400, 127, int(rng.integers(1, 10 ** 6))]}
     # ---- Part C: phases
